@@ -55,6 +55,7 @@ fn catalogue() -> Vec<(String, Vec<Type>)> {
         ("SELECT $1".into(), vec![Type::TEXT]),
         ("SELECT $1, $2".into(), vec![Type::INT4, Type::TEXT]),
         ("SELECT $1, $2".into(), vec![Type::TEXT, Type::INT4]),
+        ("SELECT syntax_error".into(), vec![]),
     ]
 }
 
@@ -242,9 +243,23 @@ pub fn history(seed: u64, idx: u64) -> Case {
                         tokio::time::timeout(Duration::from_secs(10), held[i].0.prepare_typed_cached(&q, &types)).await
                     };
                     let stmt = match r {
-                        Ok(Ok(s)) => s,
+                        Ok(Ok(s)) => {
+                            if q.contains("syntax_error") {
+                                v!("failed_prepare_returned_statement", "conn {}: the server refused {:?} but a statement was returned", k, key);
+                            }
+                            s
+                        }
                         Ok(Err(e)) => {
-                            v!("prepare_failed", "prepare of {:?} on conn {} failed: {}", key, k, e);
+                            if q.contains("syntax_error") {
+                                // a refused statement must not be cached
+                                *counters.entry("refused_prepares".into()).or_insert(0) += 1;
+                                let want_size = keys.get(&k).map(|s| s.len()).unwrap_or(0);
+                                if held[i].0.statement_cache.size() != want_size {
+                                    v!("cache_size", "conn {}: a refused prepare changed statement_cache.size() to {} ({} keys cached)", k, held[i].0.statement_cache.size(), want_size);
+                                }
+                            } else {
+                                v!("prepare_failed", "prepare of {:?} on conn {} failed: {}", key, k, e);
+                            }
                             continue;
                         }
                         Err(_) => {
@@ -328,7 +343,11 @@ pub fn history(seed: u64, idx: u64) -> Case {
                                 v!("cache_size", "conn {}: after two concurrent prepares of {:?} size() = {} but {} distinct keys are cached", k, key, held[i].0.statement_cache.size(), want_size);
                             }
                         }
-                        Ok((a, b)) => v!("prepare_failed", "concurrent prepare of {:?} on conn {} failed: {:?} {:?}", key, k, a.err().map(|e| e.to_string()), b.err().map(|e| e.to_string())),
+                        Ok((a, b)) => {
+                            if !q.contains("syntax_error") {
+                                v!("prepare_failed", "concurrent prepare of {:?} on conn {} failed: {:?} {:?}", key, k, a.err().map(|e| e.to_string()), b.err().map(|e| e.to_string()));
+                            }
+                        }
                         Err(_) => v!("harness", "concurrent prepare on conn {} hangs", k),
                     }
                 }
@@ -399,6 +418,31 @@ pub fn history(seed: u64, idx: u64) -> Case {
                     }
                     let _ = dead.insert(k);
                     *counters.entry("server_faults".into()).or_insert(0) += 1;
+                }
+                // ------------------------------------------------ the server drops a connection that is checked out
+                97..=98 if !held.is_empty() => {
+                    let i = rng.usize_below(held.len());
+                    let k = held[i].1;
+                    let st = server.conn(k);
+                    st.lock().unwrap().kill = true;
+                    for _ in 0..4000 {
+                        if is_finished(k) {
+                            break;
+                        }
+                        tokio::time::sleep(Duration::from_micros(250)).await;
+                    }
+                    if is_finished(k) {
+                        log.push(format!("server closed checked-out conn {}", k));
+                        let _ = dead.insert(k);
+                        *counters.entry("server_faults".into()).or_insert(0) += 1;
+                        // give it back at once: nothing else may be done with it
+                        let (c, k) = held.swap_remove(i);
+                        let _ = return_seq.insert(k, server.seq.load(Ordering::SeqCst));
+                        idle.push(k);
+                        drop(c);
+                    } else {
+                        v!("harness", "conn {} did not finish after the server closed it", k);
+                    }
                 }
                 // ------------------------------------------------ resize: release idle clients
                 93..=96 => {
